@@ -798,6 +798,9 @@ fn get_current_timestamp() -> DateTime<Local> {
 pub(super) enum AsyncMessage {
     Content(Vec<u8>),
     Flush,
+    // is done when all content that was sent before has been written,
+    // the result is sent back
+    Rotate(std::sync::mpsc::SyncSender<Result<(), FlexiLoggerError>>),
     Shutdown,
 }
 
@@ -825,6 +828,11 @@ pub(super) fn start_async_fs_writer(
                                     state.flush().unwrap_or_else(|e| {
                                         eprint_err(ErrorCode::Flush, "flushing failed", &e);
                                     });
+                                }
+                                AsyncMessage::Rotate(reply_sender) => {
+                                    reply_sender
+                                        .send(state.mount_next_linewriter_if_necessary(true))
+                                        .ok();
                                 }
                                 AsyncMessage::Shutdown => {
                                     state.shutdown();
